@@ -14,7 +14,7 @@ RULE = ('cases = generated write-heavy programs for 2-3 connections over shared 
         'evaluations = steps; non-trivial = program with >= 1 commit whose write/readCurrent set overlaps a transaction '
         'committed during its lifetime; distinct by program hash')
 ASSUMPTIONS = c02_snapshot.ASSUMPTIONS
-BUDGET = {'quick': {'examples': 1500, 'workers': 8},
+BUDGET = {'quick': {'examples': 8000, 'workers': 8},
           'thorough': {'examples': 30000, 'workers': 16}}
 
 
